@@ -159,11 +159,11 @@ def clauses_only(text, only, key):
     return "\n".join(out)
 
 
-def emit_item(unit, store, relfile, path, mode, only=None):
+def emit_item(unit, store, relfile, path, mode, only=None, variant=""):
     src, toks = _load(relfile)
     item = rsx.find_item(src, path, toks)
     key = norm_key(relfile + " :: " + path)
-    ov = store.get(key)
+    ov = store.get(key + variant)
     a, b = item.lines()
     info = {"key": key, "mode": mode, "file": relfile, "lines": [a, b],
             "sha256": hashlib.sha256(item.text.encode()).hexdigest()[:16],
@@ -306,8 +306,14 @@ def assemble(unit_name, store=None):
                     # requires clause is kept
                     rest, tags = rest.split(" only ", 1)
                     only = [t.strip().lstrip("#") for t in tags.split() if t.strip()]
+                variant = ""
+                m = re.search(r"\s(@\w+)\s*$", rest)
+                if m:
+                    # `... :: fn name @variant`: a second, independent overlay for the same function (store key
+                    # `<key> @variant`), so that a stronger contract can live in its own unit
+                    variant, rest = " " + m.group(1), rest[:m.start()]
                 relfile, ipath = rest.split(" :: ", 1)
-                emit_item(unit, store, relfile.strip(), ipath.strip(), mode, only)
+                emit_item(unit, store, relfile.strip(), ipath.strip(), mode, only, variant)
             else:
                 unit.add(line + "\n", "template", rel, ln)
     process(tpath)
